@@ -142,9 +142,12 @@ fn pen() -> Face {
 }
 
 const NSYM: usize = 12;
-const SYM_NAMES: [&str; NSYM] = ["a", "é", "世", "U+0301", "NUL", "\\n", "\\t", "\\r", "glyph(gl)", "glyph(世x)", "img1x1", "img2x2"];
+const SYM_NAMES: [&str; NSYM + 1] = ["a", "é", "世", "U+0301", "NUL", "\\n", "\\t", "\\r", "glyph(gl)", "glyph(世x)", "img1x1", "img2x2", "U+1F600"];
+/// a wide character of four UTF-8 bytes; symbol 12, used by the byte-level part only
+const EMOJI: char = '\u{1f600}';
+/// symbols of the byte-level part B: the eight character symbols and the four-byte character
+const BYTE_SYMS: [u8; 9] = [0, 1, 2, 3, 4, 5, 6, 7, 12];
 const SYM_CHARS: [char; 8] = ['a', 'é', '世', '\u{301}', '\0', '\n', '\t', '\r'];
-const NCHARSYM: usize = 8;
 
 struct Alphabet {
     glyph_n: Glyph,
@@ -166,6 +169,7 @@ static ALPHA: LazyLock<Alphabet> = LazyLock::new(|| {
     cells.push(Cell::new_glyph(pen(), glyph_w.clone()));
     cells.push(Cell::new_image(img1.clone()).with_face(pen()));
     cells.push(Cell::new_image(img2.clone()).with_face(pen()));
+    cells.push(Cell::new_char(pen(), EMOJI));
     Alphabet { glyph_n, glyph_w, img1, img2, cells }
 });
 
@@ -220,7 +224,7 @@ fn tok_of(cell: &Cell) -> Tok {
 fn ref_char_width(c: char) -> usize {
     match c {
         'a' | 'é' | 'g' | 'l' | 'x' => 1,
-        '世' => 2,
+        '世' | EMOJI => 2,
         _ => 0,
     }
 }
@@ -246,6 +250,7 @@ fn expand(sym: usize, glyphs: bool) -> Vec<(Tok, usize)> {
         }
         10 => vec![(Tok::Img(0), 1)],
         11 => vec![(Tok::Img(1), 2)],
+        12 => vec![(Tok::Ch(EMOJI), 2)],
         _ => unreachable!(),
     }
 }
@@ -376,7 +381,7 @@ const P_TEXT: usize = 4;
 const SGR_TOKENS: [&str; 3] = ["\x1b[1m", "\x1b[m", "\x1b[31m"];
 
 fn seq_chars(seq: &[u8]) -> Vec<char> {
-    seq.iter().map(|s| SYM_CHARS[*s as usize]).collect()
+    seq.iter().map(|s| if *s == 12 { EMOJI } else { SYM_CHARS[*s as usize] }).collect()
 }
 
 fn utf8_bytes(seq: &[u8]) -> Vec<u8> {
@@ -867,7 +872,7 @@ pub fn run(ctx: &Ctx) -> Result<Report, String> {
     // ---- part B: byte level (io::Write, utf8_writer, tty_writer) over the 8 character symbols
     let mut byte_seq_counts = vec![];
     for len in 0..=chunk_max_len {
-        let total = (NCHARSYM as u64).pow(len as u32);
+        let total = (BYTE_SYMS.len() as u64).pow(len as u32);
         byte_seq_counts.push(total);
         let cfgs: &Vec<Config> = chunk_cfgs[len];
         (0..total).into_par_iter().for_each_init(Ctxs::new, |ctxs, idx| {
@@ -878,7 +883,7 @@ pub fn run(ctx: &Ctx) -> Result<Report, String> {
                 capped.store(true, Ordering::Relaxed);
                 return;
             }
-            let seq = seq_from_index(idx, len, NCHARSYM as u64);
+            let seq: Vec<u8> = seq_from_index(idx, len, BYTE_SYMS.len() as u64).iter().map(|d| BYTE_SYMS[*d as usize]).collect();
             let mut nt = 0u64;
             let parts_utf8 = partitions_for(utf8_bytes(&seq).len());
             let parts_tty = partitions_for(tty_bytes(&seq).len());
